@@ -90,6 +90,9 @@ U_S = {"g": [[46], [0], [1, 47], [2]], "ch": [[1], [3], [4], [1]], "late": [],
 U_K = {"g": [[], [45], [47, 46], [48], [49, 0]], "ch": [[3], [7], [1], [3, 7], [3, 5, 7]], "late": [],
        "gdef": {"45": {"ps": [0], "ch": [1, 3, 6]}, "46": {"ps": [], "ch": [1]}, "48": {"ps": [0], "ch": [3, 4]},
                 "49": {"ps": [2], "ch": [1, 3, 6]}}}
+# forks: several children of a revision the target already holds are fetched together (rich-root upgrade:
+# each synthesised root text must keep that outside parent in its per-file graph)
+U_Y = {"g": [[], [0], [1], [1], [1], [2, 3], [4]], "ch": [[], [1], [3], [4], [1, 6], [7], [3]], "late": []}
 U_B = {"g": [[], [0], [0], [1, 2], [2, 1], [3, 4], [4, 3, 50]], "ch": [[], [1], [3], [4], [6], [1, 5], [7]], "late": []}
 
 
@@ -130,6 +133,11 @@ def corpus():
     out.append(_case(U_K, "pack-0.92", "pack-0.92", "smart", "local", seed=[1], r=4))      # regression: must pass
     out.append(_case(U_K, "pack-0.92", "pack-0.92", "smart", "smart", seed=[0], r=4, fg=True))
     out.append(_case(U_K, "pack-0.92", "pack-0.92", "local", "local", seed=[1], r=4))
+    for sv, tv in (("local", "local"), ("smart", "local"), ("local", "smart")):
+        out.append(_case(U_Y, "pack-0.92", "2a", sv, tv, seed=[1], r=5))             # two children of r1, merged
+        out.append(_case(U_Y, "pack-0.92", "2a", sv, tv, seed=[1], r=0, entry="all"))  # three children of r1
+    out.append(_case(U_Y, "pack-0.92", "2a", fb=[1], r=5))
+    out.append(_case(U_Y, "2a", "2a", seed=[1], r=0, entry="all"))
     out.append(_case(U_B, seed=[1], r=0, entry="all"))
     out.append(_case(U_A, fb=[2], r=0, entry="all", fg=True))
     out.append(_case(U_A, "pack-0.92", "2a", seed=[3], r=0, entry="all"))
@@ -157,6 +165,15 @@ def _big_universe(n, heavy):
         g.append(ps)
         ch.append([9] if heavy and i == n - 2 else [1])
     return {"g": g, "ch": ch, "late": [], "big": True}
+
+
+def _long_walk_universe(k):
+    """r0; M = r1 = [r0]; H = r2 = [M]; a chain of k revisions on H; tip = [chain end, M].  M reaches the source
+    late: a target seeded with H holds H but not M.  The walk (batch size 50) meets M (missing) in its first
+    batch and H (present, an ancestor... descendant of M) only k revisions later."""
+    g = [[], [0], [1]] + [[i] for i in range(2, 2 + k)]
+    g.append([len(g) - 1, 1])
+    return {"g": g, "ch": [[1] for _ in g], "late": [1], "big": True}
 
 
 def _random_case(rng, u, pairs=FMT_PAIRS):
@@ -216,11 +233,38 @@ def cases(rng, tier):
         pairs = FMT_PAIRS if k % 2 == 0 else [("2a", "2a")] * 3 + [("pack-0.92", "2a"), ("2a", "pack-0.92")]
         for _ in range(per):
             yield _random_case(rng, u, pairs)
+    # forks fetched across the rich-root upgrade (and same-format for contrast): the target holds the fork point
+    for _ in range(4 if tier == "quick" else 40):
+        nf = rng.randint(2, 4)
+        base = rng.randint(1, 3)
+        g = [[]] + [[i] for i in range(base - 1)]
+        fork = base - 1
+        kids = []
+        for _k in range(nf):
+            g.append([fork])
+            kids.append(len(g) - 1)
+            if rng.random() < 0.4:
+                g.append([len(g) - 1])
+                kids[-1] = len(g) - 1
+        if rng.random() < 0.5:
+            g.append(kids[:2])
+        u = {"g": g, "ch": [sorted(rng.sample(C.KINDS, rng.choice([0, 1, 2]))) for _i in g], "late": []}
+        sf, tf = rng.choice([("pack-0.92", "2a")] * 3 + [("2a", "2a"), ("pack-0.92", "pack-0.92")])
+        sv, tv = rng.choice(VIAS)
+        entry = rng.choice(["all", "all", "fetch"])
+        yield _case(u, sf, tf, sv, tv, seed=[fork], r=len(g) - 1, fg=rng.random() < 0.5, entry=entry)
     # size thresholds: _walk_to_common_revisions_batch_size = 50, Inter1and2Helper.known_graph_threshold = 100,
     # iter_rev_trees batches of 100, the 1 MiB pack write cache
     bigs = [(_big_universe(104, True), "2a", "2a"), (_big_universe(104, False), "pack-0.92", "2a")]
     if tier != "quick":
         bigs += [(_big_universe(53, False), "pack-0.92", "pack-0.92"), (_big_universe(127, True), "2a", "2a")]
+    # the find_ghosts=False walk over more than one batch with a ghost to fill (exact here: the ghost is reached
+    # directly from the tip, so every batching requests the same set)
+    for k, sf, tf, sv in ((56, "2a", "2a", "local"), (49, "2a", "2a", "smart"), (70, "pack-0.92", "2a", "local")):
+        if tier == "quick" and k == 70:
+            continue
+        u = _long_walk_universe(k)
+        yield _case(u, sf, tf, sv, "local", seed=[2], r=len(u["g"]) - 1, fg=False)
     for u, sf, tf in bigs:
         n = len(u["g"])
         size = {cut: n - len(C.anc_present(u["g"], set(), [cut])) for cut in range(n - 1)}
